@@ -5,6 +5,7 @@ package jrun
 import (
 	"context"
 	"fmt"
+	"math/rand"
 	"sort"
 	"strings"
 	"sync"
@@ -54,6 +55,12 @@ type Runner struct {
 	// SkipTipData disables the "value of every acknowledged tip is visible" oracle
 	// (for runs whose tips are not loads).
 	SkipTipData bool
+	// Rand, if set and Execute is called with a nil schedule, makes the
+	// scheduler pick a blocked client at random at every step.
+	Rand *rand.Rand
+	// LastTrace is the sequence of steps granted in the last Execute, with entry
+	// numbers and HEAD values normalized to the start of the run (as in Journal.tla).
+	LastTrace []lakeh.GateStep
 }
 
 // run one schedule on the real lake; returns the real results and the list of oracle failures.
@@ -185,6 +192,19 @@ func (r *Runner) Execute(sc *lakeh.JScenario, sched []lakeh.GateStep, want *lake
 		wg.Wait()
 		return results, nil, "", fmt.Errorf("clients did not reach the gate")
 	}
+	if sched == nil && r.Rand != nil {
+		for steps := 0; steps < 2000; steps++ {
+			bl := gate.Blocked()
+			if len(bl) == 0 {
+				break
+			}
+			if err := gate.Grant(bl[r.Rand.Intn(len(bl))]); err != nil {
+				gate.Drain()
+				wg.Wait()
+				return results, nil, "", err
+			}
+		}
+	}
 	for si, st := range sched {
 		if st.Lbl == "crash" {
 			gate.Crash(st.C)
@@ -225,6 +245,18 @@ func (r *Runner) Execute(sc *lakeh.JScenario, sched []lakeh.GateStep, want *lake
 	}
 	gate.Drain()
 	wg.Wait()
+	r.LastTrace = nil
+	for _, st := range gate.Trace {
+		if st.Lbl == "rh" || st.Lbl == "cas" || st.Lbl == "wh" {
+			if st.Lbl == "wh" {
+				// the gate does not know the value being written; Journal.tla's wh carries at+1 = the entry just created
+				st.N = 0
+			} else {
+				st.N -= head0
+			}
+		}
+		r.LastTrace = append(r.LastTrace, st)
+	}
 	sort.Slice(results, func(a, b int) bool {
 		if results[a].C != results[b].C {
 			return results[a].C < results[b].C
